@@ -329,31 +329,37 @@ def _memory_obligation(c, it, tag, reserved_mem, arrays, extra_mem, dtypes, chun
         if key in memo and memo[key][0].eq(tz(e)):
             return memo[key][1]
         r = e
-        for cd in cands:
-            if cd is e or ctx.entails(tz(e) == tz(cd)):
+        ez = tz(e)
+        for cd in cands:  # cheap syntactic tests first
+            if cd is e or ez.eq(tz(cd)) or z3.is_true(z3.simplify(ez == tz(cd))):
                 r = cd
                 break
-        memo[key] = (tz(e), r)
+        else:
+            if not z3.is_int_value(z3.simplify(ez)):
+                for cd in cands:
+                    if ctx.entails(ez == tz(cd)):
+                        r = cd
+                        break
+        memo[key] = (ez, r)
         return r
 
     def on_alloc(meter, label, bufs):
+        sizes = sorted(_short(b.label) for b in bufs)
+        label = _short(label)
+        key = (label, tuple(sizes))
+        if key in seen:
+            return
+        seen.add(key)
         total = 0
-        sizes = []
         for b in bufs:
             n = b.dtype.itemsize if b.dtype is not None and hasattr(b.dtype, "itemsize") else 1
             for e in b.shape:
                 n = n * canon(e)
             total = total + n
-            sizes.append(_short(b.label))
-        label = _short(label)
-        key = (label, tuple(sorted(sizes)))
-        if key in seen:
-            return
-        seen.add(key)
         off = ctx.meter
         ctx.meter = None  # the obligation itself allocates nothing
         try:
-            _oblige(it, f"{tag}.mem:live-array-data-fits-projected-memory[at-{label}:{'+'.join(sorted(sizes))}]", tb(total <= budget),
+            _oblige(it, f"{tag}.mem:live-array-data-fits-projected-memory[at-{label}:{'+'.join(sizes)}]", tb(total <= budget),
                     kind="ensures")
         finally:
             ctx.meter = off
